@@ -266,26 +266,41 @@ def json_lists():
                 exception=[e['licenseExceptionId'] for e in exc if not e.get('isDeprecatedLicenseId')])
 
 
-def gen_header(fname):
+def gen_template(fname, ids):
+    """(prefix, linePre, linePost, suffix) of a committed generated file, or None when the file is
+    not prefix ++ one line per id ++ suffix for the ids the JSON data yields"""
     import os
     from core import REPO
     src = open(os.path.join(REPO, 'spdxexp', 'spdxlicenses', fname)).read()
-    marker = 'return []string{\n'
-    i = src.find(marker)
-    return src[:i + len(marker)] if i >= 0 else src
+    if not ids:
+        return None
+    pos = src.find('"' + ids[0] + '"')
+    if pos < 0:
+        return None
+    ls = src.rfind('\n', 0, pos) + 1
+    le = src.find('\n', pos) + 1
+    pre, post = src[ls:pos + 1], src[pos + 1 + len(ids[0]):le]
+    body = ''.join(pre + i + post for i in ids)
+    if src[ls:ls + len(body)] != body:
+        return None
+    return [src[:ls], pre, post, src[ls + len(body):]]
 
 
 def c12(tier, seed):
     lists = ['active', 'deprecated', 'exception']
     jl = json_lists()
     kmax = 3 if tier == 'quick' else 4
-    gj = [['licenses', k, gen_header('get_licenses.go'), gen_header('get_deprecated.go')] for k in range(0, kmax + 1)] + \
-         [['exceptions', k, gen_header('get_exceptions.go'), ''] for k in range(0, kmax + 1)]
+    ta, td, te = gen_template('get_licenses.go', jl['active']), gen_template('get_deprecated.go', jl['deprecated']), gen_template('get_exceptions.go', jl['exception'])
+    gj = []
+    if ta and td:
+        gj += [['licenses', k] + ta + td for k in range(0, kmax + 1)]
+    if te:
+        gj += [['exceptions', k] + te for k in range(0, kmax + 1)]
     return [grp('json-vs-tables', 'VH_jsonAgree', [[w] + jl[w] for w in lists], cost=2,
                 bound='every position of each of the three shipped lists against the list derived from cmd/licenses.json / cmd/exceptions.json',
                 symbolic='list position (the comparison itself is of concrete data; the solver adds little over a diff here)', asserts=['tables-equal-json']),
             grp('generator', 'VH_generator', gj, pkg='cmd', cost=5,
-                bound='the real generator functions on stub documents of <= %d entries; JSON decoding by the struct tags of cmd\'s types; file header taken from the committed generated files' % kmax,
+                bound='the real generator functions on stub documents of <= %d entries; JSON decoding by the struct tags of cmd\'s types; the template (prefix, entry line, suffix) of each file is taken from the committed generated file, which must decompose as prefix + one line per JSON id + suffix' % kmax,
                 symbolic='ids (1-3 symbolic id characters), isDeprecatedLicenseId and isOsiApproved flags',
                 asserts=['generator-runs', 'generator-files', 'generator-partition-and-format']),
             grp('fold-unique-disjoint', 'VH_foldUnique', [[a, b] for i, a in enumerate(lists) for b in lists[i:]], cost=1,
